@@ -378,7 +378,7 @@ func TestC06Bindings(t *testing.T) {
 			if kind == "as" || kind == "render" {
 				kind = "where"
 			}
-			op, ns, ok := g.TypedOp(kind, s, tenv, 1)
+			op, ns, ok := g.TypedOp(kind, s, tenv, 2)
 			if !ok {
 				continue
 			}
